@@ -65,6 +65,15 @@ def run_case(case):
                         # triggers) is queued before it: the recurring job must still be the head and run on time
                         c3 = builder.once(Instant.from_timestamp_nanos(nr + 300_000_000), lambda: others.append(clock.ns))
                         other_ctrls.append(c3)
+                    if case.get('disturb') and k % 3 == 2 and '"jitter"' not in json.dumps(case['expr']):
+                        # ... and one due a fraction of a second after the NEXT occurrence, queued before the recurring
+                        # job is re-inserted for it
+                        try:
+                            pred = ctrl._job.producer.copy().get_next(Instant.from_timestamp_nanos(nr)).timestamp_nanos()
+                            c4 = builder.once(Instant.from_timestamp_nanos(pred + 300_000_000), lambda: others.append(clock.ns))
+                            other_ctrls.append(c4)
+                        except Exception:  # noqa: BLE001
+                            pass
                     if case.get('pre') and nr - clock.ns > 2_000_000:
                         # a wake-up shortly before the occurrence must not start the job
                         clock.set(nr - 1_000_000)
